@@ -371,6 +371,7 @@ ERR_PATTERNS = [
     (r"were in different accounts", lambda m: 2500),
     (r"Both FXTs have positive", lambda m: 2600),
     (r"Both FXTs have negative", lambda m: 2700),
+    (r"has a zero .* amount", lambda m: 2650),
     (r"FX currency .* not supported", lambda m: 2800),
     (r"Unpaired FXT", lambda m: 2900),
 ]
@@ -792,6 +793,10 @@ def corpus():
         {"acts": conv, "style": style, "layout": canonical_layout(), "layout2": list(reversed(canonical_layout())), "sort": True, "wf": True},
         {"acts": conv + simple, "style": dict(style, num="str"), "layout": canonical_layout(), "layout2": blank_front, "sort": False, "wf": True},
         {"acts": [], "style": style, "layout": canonical_layout(), "layout2": blank_front, "sort": True, "wf": True},
+        # a conversion whose foreign-currency row has a net amount of 0: a row error (it divided by zero until fix b2d4739)
+        {"acts": [mk(kind="fxt", action="FXT", cur="CAD", net="-1.00", sym="", qty="0", price="0", comm="0"),
+                  mk(kind="fxt", action="FXT", cur="USD", net="0", sym="", qty="0", price="0", comm="0")] + simple,
+         "style": style, "layout": canonical_layout(), "layout2": blank_front, "sort": True, "wf": False},
         # a duplicated named header: the later column wins (same layout twice: no layout oracle)
         {"acts": simple, "style": style, "layout": dup_qty, "layout2": dup_qty, "sort": True, "wf": False},
     ]
